@@ -148,6 +148,15 @@ def run(ctx):
                     xw = np.asarray(nsutil.to_list(f_.sample_and_log_prob(4000)[0]), float).reshape(-1, d)
                     sdw = xw.std(axis=0) + 1e-3
                     a_, b_ = xw.min(axis=0) - 4 * sdw, xw.max(axis=0) + 4 * sdw
+                if d == 2:
+                    # a grid can only integrate what it resolves: an (untrained) flow may concentrate on a ridge far thinner than the
+                    # grid step in some direction (false alarm, thorough seed 3: integral 6.5e-7). Not checked then, and counted.
+                    xr_ = np.asarray(nsutil.to_list(f_.sample_and_log_prob(2000)[0]), float).reshape(-1, 2)
+                    thin = float(np.sqrt(max(np.linalg.eigvalsh(np.cov(xr_.T)).min(), 0.0)))
+                    step = float(np.max((np.asarray(b_, float) - np.asarray(a_, float)) / ((201 if bt else 401) - 1)))
+                    if thin < 6 * step:
+                        ctx.extra["quadrature_skipped_unresolvable"] = ctx.extra.get("quadrature_skipped_unresolvable", 0) + 1
+                        continue
                 try:
                     I = quad_1d(logp, a_[0], b_[0], 4001 if bt else 24001, bounded=bool(bt)) if d == 1 else \
                         quad_2d(logp, a_, b_, 201 if bt else 401, bounded=bool(bt))
